@@ -12,7 +12,7 @@ LEVEL_TEXT = ('Bounded proof per obligation: the real functions are executed sym
               'Obligations that time out are reported as inconclusive, never as discharged.')
 CLAIMED = {
     'C01': ('bounded symbolic execution (CrossHair+z3) of MerchantEngine.match / normalize_merchant vs a first-match oracle; truth-vector abstraction + AST-constant injection',
-            LEVEL_TEXT, 'Bounds: <=3 rules (4 thorough), description <=2-3 ASCII chars, constants <=1-2 chars, integer amounts. ' + COMMON_NOTE, 'DESIGN.md section 2 C01'),
+            LEVEL_TEXT, 'Bounds: <=3 rules (4 thorough); per rule file four focus groups (text / text2 / context / numbers) with description <=3, constants <=2 ASCII chars, integer amounts; fuzzy() against a written-out reference over a 3-letter alphabet (one concrete text per path). ' + COMMON_NOTE, 'DESIGN.md section 2 C01'),
     'C02': ('bounded symbolic execution (CrossHair+z3) of MerchantEngine.match in both modes and of the legacy loop vs a tag-union oracle; neutrality of tag-only rules by differential runs inside one path',
             LEVEL_TEXT, 'Bounds: <=3 rules (4 thorough); dynamic-tag text over a 3-letter alphabet (tag sets hash their members). ' + COMMON_NOTE, 'DESIGN.md section 2 C02'),
     'C04': ('bounded symbolic execution (CrossHair+z3) of tally\'s parser+evaluator vs an independent reference interpreter, plus metamorphic laws, per expression shape with symbolic leaves',
@@ -25,7 +25,7 @@ CLAIMED = {
             LEVEL_TEXT, 'Bounds: identifier names <=10 (13) ASCII chars; ~55 representative snippets (one per ast node class / classic payload). Arbitrary source strings cannot be symbolic (ast.parse is a C boundary): not claimed. ' + COMMON_NOTE, 'DESIGN.md section 2 C03'),
     'C05': ('bounded symbolic execution (CrossHair+z3) of parse_generic_csv/parse_amount with contract stubs for csv.reader, float, strptime; symbolic cell counts, texts, amount-cell pieces, flags; oracle list from the property text',
             LEVEL_TEXT, 'Bounds: 1-2 rows, <=5 columns, 4 layouts, cell texts <=1-3 chars. Stubs (csv reader, float, strptime, normalize_merchant) are listed in the evidence; CSV quoting and real number parsing are outside. ' + COMMON_NOTE, 'DESIGN.md section 2 C05'),
-    'C07': ('bounded symbolic execution (CrossHair+z3) of operation sequences (loads, classifications, evaluations) against a reference table computed in fresh interpreters; symbolic fixture indices cover the product histories x transactions',
+    'C07': ('bounded symbolic execution (CrossHair+z3) of operation sequences (loads, classifications, evaluations) against a reference table computed in fresh interpreters; symbolic fixture indices cover the product histories x transactions; rules over supplemental rows with the rows compared item for item and type for type',
             LEVEL_TEXT, 'Bounds: sequences <=3 ops (4 thorough) from an enumerated family; description/memo/amount from small fixture sets selected by symbolic indices (the solver covers the product; it does not reason about text here). ' + COMMON_NOTE, 'DESIGN.md section 2 C07'),
     'C08': ('bounded symbolic execution (CrossHair+z3) of engine/normalize_merchant/apply_transforms/classify_merchants on files containing one ill-typed or partial expression from a generated family, with symbolic operand values; oracle: the failing construct is inapplicable for that item',
             LEVEL_TEXT, 'Bounds: 40 ill-typed match expressions, 20 ill-typed view filters, 4 positions; operands <=1-2 chars / ints. ' + COMMON_NOTE, 'DESIGN.md section 2 C08'),
@@ -34,21 +34,21 @@ CLAIMED = {
     'C14': ('real CSV->.rules pipeline on a family of CSV files: constants preserved (direct comparison), regex matching equivalence on symbolic descriptions (CrossHair+z3), whole-file equivalence with symbolic regex truth vector, exact-real amount and date',
             LEVEL_TEXT, 'Bounds: 12 CSV files, 13 patterns, description <=3 chars. Known finding listed in known_findings.json: relative date modifiers are dropped. ' + COMMON_NOTE, 'DESIGN.md section 2 C14'),
     'C17': ('bounded symbolic execution (CrossHair+z3) of MerchantEngine.parse / parse_sections over the product of layout-edit parameters and of single-point corruptions at symbolic positions; direct runs for load errors being reported',
-            LEVEL_TEXT, 'Bounds: 3 merchants + 2 views base files; edit parameters as listed in the evidence. The solver covers the product of edit parameters; it does not reason about file text. ' + COMMON_NOTE, 'DESIGN.md section 2 C17'),
+            LEVEL_TEXT, 'Bounds: 3 merchants + 3 views base files; edit parameters as listed in the evidence. The solver covers the product of edit parameters; it does not reason about file text. ' + COMMON_NOTE, 'DESIGN.md section 2 C17'),
     'C18': ('bounded symbolic execution (CrossHair+z3) of parse_format_string on arrangements with symbolic spelling; inspect round trip through the real auto_detect_csv_format and the suggestion block extracted by AST from cmd_inspect',
             LEVEL_TEXT, 'Bounds: width <=4 (5 thorough), ~45 arrangements (quick), 10 header sets with symbolic affixes. csv reader stubbed. ' + COMMON_NOTE, 'DESIGN.md section 2 C18'),
     'C19': ('bounded-exhaustive symbolic execution (CrossHair+z3) of suggest_pattern/suggest_merchants_rule -> parse_merchants -> match over a small alphabet and structured skeletons (each path holds one concrete description: the text reaches ast.parse / re.compile)',
-            LEVEL_TEXT, 'Bounds: free descriptions <=2 (3 thorough) chars over a 10-character alphabet; 13 skeletons with words <=1 (2) chars. ' + COMMON_NOTE, 'DESIGN.md section 2 C19'),
+            LEVEL_TEXT, 'Bounds: free descriptions <=2 (3 thorough) chars over a 10-character alphabet; 13 skeletons with words <=1 (2) chars; long tokens (0..40 filler letters x 4 metacharacter pieces) and blank / tab runs between words by symbolic index. ' + COMMON_NOTE, 'DESIGN.md section 2 C19'),
     'C11': ('bounded symbolic execution (CrossHair+z3) of the real cmd_run with collaborators replaced by recorders driven by symbolic per-source and global settings; real load_config with load_settings stubbed; rule mode checked by classifying probes with the rules actually handed to the parser',
-            LEVEL_TEXT, 'Wiring level only: yaml, argparse and report text are outside. Bounds: 1-3 sources x 4-6 boolean settings, rule mode, rules-file kind, views, output format. Stubs listed in the evidence. ' + COMMON_NOTE, 'DESIGN.md section 2 C11'),
+            LEVEL_TEXT, 'Wiring level (yaml, argparse and report text are outside) plus two end-to-end obligations: real cmd_run -> parse_generic_csv -> parse_amount -> normalize_merchant -> analyze_transactions with the csv reader, float() and strptime stubbed by contract and symbolic exact-real amounts. Bounds: 1-3 sources x 4-6 boolean settings, rule mode, rules-file kind, views, output format; pipeline: 2 sources / 3 rows. Stubs listed in the evidence. ' + COMMON_NOTE, 'DESIGN.md section 2 C11'),
     'C12': ('bounded symbolic execution (CrossHair+z3) of the four renderers on stats from the real analyze_transactions with symbolic exact-real amounts; json.dumps replaced by a recorder to compare the embedded structures with the analysis; hostile-string parse-back by direct runs',
-            LEVEL_TEXT, 'Partly applicable: HTML/JSON parse-back for ALL strings cannot be decided here (json.dumps / html.parser are C and regex boundaries) - 14 hostile strings are run directly; formatted figures inside Markdown/text are opaque. ' + COMMON_NOTE, 'DESIGN.md section 2 C12'),
+            LEVEL_TEXT, 'Partly applicable: HTML/JSON parse-back for ALL strings cannot be decided here (json.dumps / html.parser are C and regex boundaries) - 17 hostile strings plus every placeholder token found in the current templates are run directly; formatted figures inside Markdown/text are opaque. ' + COMMON_NOTE, 'DESIGN.md section 2 C12'),
     'C15': ('bounded symbolic execution (CrossHair+z3) of the real migration commands on a real scratch directory with interposed file-system primitives; symbolic crash index, fault index, partial-write mode and initial state; post-state assertions through the real load path',
-            LEVEL_TEXT, 'Bounds: crash/fault index 0..24, partial mode 0..2, 5 initial states. Contract: POSIX semantics of the interposed calls; buffered write reaches disk at close. Known finding listed: folder-layout migration is not resumable. ' + COMMON_NOTE, 'DESIGN.md section 2 C15'),
+            LEVEL_TEXT, 'Bounds: crash/fault index 0..24, partial mode 0..2, 5 initial states; folder-layout migration: crash before / OSError at each effect (one obligation per point, decided by a direct run). Contract: POSIX semantics of the interposed calls; buffered write reaches disk at close. Known finding listed: folder-layout migration is not resumable. ' + COMMON_NOTE, 'DESIGN.md section 2 C15'),
     'C16': ('bounded symbolic execution (CrossHair+z3) of explain_description vs normalize_merchant on rules loaded from template files (symbolic description/amount) and of cmd_explain / cmd_discover / cmd_run with shared recorders (symbolic source flags)',
             LEVEL_TEXT, 'Bounds: description <=2 chars, 3 templates, 2-3 sources. Four known findings listed in known_findings.json (explain stops at tag-only rules, ignores let/variables and most_specific; explain/discover treat supplemental sources as transactions). ' + COMMON_NOTE, 'DESIGN.md section 2 C16'),
     'C20': ('bounded symbolic execution (CrossHair+z3) of the real commands on a real scratch budget whose initial state, arguments and command sequence are symbolic; frame condition over the byte contents of the tree before/after',
-            LEVEL_TEXT, 'Bounds: 6 state flags per command, sequences of 2 commands. The solver covers the product of states/flags/sequences; commands run concretely on each path. ' + COMMON_NOTE, 'DESIGN.md section 2 C20'),
+            LEVEL_TEXT, 'Bounds: 6 state flags per command, sequences of 2 commands, --migrate next to an unreferenced merchants.rules (5 flags). The solver covers the product of states/flags/sequences; commands run concretely on each path. ' + COMMON_NOTE, 'DESIGN.md section 2 C20'),
     'C13': ('translation validation: Python AST and JS ESTree (acorn) of the classification functions translated to z3 (Float64, bounded ASCII tag lists) on every run; one equivalence query per output; cross-checked with z3 4.8.12 and cvc5',
             'Equivalence of the two programs for every double and every tag list within the bounds (unsat of the difference query); vacuity guard per bucket; models replayed on the real Python function and the real JS under node.',
             'Bounds: null or <=3 tags (4 thorough) of <=10 (12) ASCII chars. Trusted: engine/smt/symexec.py (validated against concrete runs of both real programs on every run), acorn, z3. If the source leaves the translator subset the check reports a harness error unless a fixed differential grid finds a replayable disagreement.', 'DESIGN.md section 2 C13'),
